@@ -653,10 +653,19 @@ func runC07(c *ctx) {
 		al := []string{"L:0", "A:0", "G", "T", "U", "X"}
 		ar := []string{"R:0", "A:0", "G", "T", "U", "X"}
 		for _, col := range []string{"W", "B"} {
-			scheds = append(scheds, c07Exhaustive(3, col, al, 5)...)
-			scheds = append(scheds, c07Exhaustive(3, col, ar, 4)...)
+			scheds = append(scheds, c07Exhaustive(3, col, al, 6)...)
+			scheds = append(scheds, c07Exhaustive(3, col, ar, 5)...)
 		}
-		scheds = append(scheds, c07Exhaustive(3, "O", al, 4)...)
+		scheds = append(scheds, c07Exhaustive(3, "O", al, 5)...)
+		// the same orderings after two plies have been played (undo and late answers deeper in the game)
+		for _, x := range c07Exhaustive(3, "W", al, 5) {
+			x.ops = append([]string{"A:0", "L:0", "G"}, x.ops...)
+			scheds = append(scheds, x)
+		}
+		for _, x := range c07Exhaustive(3, "B", al, 5) {
+			x.ops = append([]string{"L:0", "G", "A:0"}, x.ops...)
+			scheds = append(scheds, x)
+		}
 	}
 	if v := os.Getenv("VERIF_C07_PAR"); v != "" {
 		par, _ = strconv.Atoi(v)
